@@ -18,6 +18,43 @@ CLAIMS = {
           "object identity = tree position; SipHash collisions ignored; hypotheses WFTree/Path.WF are evaluated by an "
           "executable checker on every audited story (not yet proved equivalent to the Prop)."),
     technique="Lean 4 proof over hand-written model + differential correspondence (audit rows) against the real code"),
+
+ "C09": dict(
+    category="proof",
+    text=("One frame theorem per host entry point of the Lean model of the API (Ink/Api): a rejected call returns the "
+          "story it was given (literally; up to the cosmetic choice index for choose_choice_index; up to the "
+          "validated flag before the first validation) and never a panic; 18 theorems incl. all refusals during an "
+          "unfinished continue_async. The whole interpreter + API model is tied to the code on every run by "
+          "transcript equality (results, callbacks, normalised save after every step) on histories with invalid "
+          "calls of every kind injected at random positions; the direct oracle is the lockstep of the same history "
+          "with and without the injected calls on the real code."),
+    design_ref="DESIGN.md section 5 C09",
+    note=("Trusted: Lean kernel; axioms within propext/Classical.choice/Quot.sound; harness, driver and canonicaliser "
+          "(observer events as sets, cosmetic choice index ignored in lockstep); StatePatch abstracted to a value "
+          "copy; generators give the histories that tie model and code."),
+    technique="Lean 4 frame theorems over a hand-written API model + differential correspondence + lockstep oracle"),
+ "C13": dict(
+    category="proof",
+    text=("Theorems about the delivery block and its lifting to a whole continue in the Lean model: with a handler the "
+          "pending errors then warnings are handed over exactly once and forgotten (also in a live look-ahead "
+          "snapshot), so nothing earlier can be delivered again; without a handler an error makes the continue fail "
+          "and stays readable, warnings never fail it; an error stops the story. Tie: transcripts (messages compared "
+          "as text) of fault-raising generated programs with and without handler. Oracle: deliveries with a handler "
+          "equal, continue by continue, the messages newly readable without one."),
+    design_ref="DESIGN.md section 5 C13",
+    note="As C09. Time-limited continues are excluded from C13's oracle (a pause delivers what has been raised so far).",
+    technique="Lean 4 theorems over the continue/delivery model + differential correspondence + two-run oracle"),
+ "C17": dict(
+    category="proof",
+    text=("quiescent_invariant (every blocking continue that returns leaves no snapshot, recursion count, async flag "
+          "or unsafe flag — also when it finishes a paused time-limited continue) proved by induction over the "
+          "stepping loop for all programs and states, and reset_eq_fresh (reset_state on a quiescent story = "
+          "construction with the same seed and host configuration). Tie: transcripts incl. a quiescence probe and "
+          "normalised saves over histories with saves/loads, flow switches, path jumps, sliced continues, errors. "
+          "Oracle: lockstep of the reset story with a fresh instance over random continuations."),
+    design_ref="DESIGN.md section 5 C17",
+    note="As C09. The real reset draws a random seed; the harness sets the seed explicitly on both sides.",
+    technique="Lean 4 invariant proof by induction over the continue loop + differential correspondence + lockstep oracle"),
 }
 
 REASONS_PENDING = "check not built yet in this revision of /verif (see DESIGN.md section 9.1 for the order of work)"
